@@ -892,6 +892,9 @@ func (c *evalCtx) callExpr(n *ECall) EV {
 				return EV{V: Val{Typ: types.Typ[types.Int], Terms: []*smt.Term{cx.Select(cx.Select(cnt, ref), x.V.Terms[0])}}}
 			}
 			return boolEV(cx.Op("bvsgt", smt.Bool, cx.Select(cx.Select(cnt, ref), x.V.Terms[0]), cx.BVLit64(0, 64)))
+		case "bigexact64", "bigexact32": // the *big.Float argument is exactly representable as a float64 / float32
+			a := c.eval(n.Args[0])
+			return boolEV(cx.App("bigfloat.exact"+id.Name[len("bigexact"):], smt.Bool, a.V.Terms[0]))
 		case "inmemory": // inmemory(x): x's dynamic type is *bytes.Buffer or *bytes.Reader (reads of available bytes and writes cannot fail)
 			a := c.eval(n.Args[0])
 			if !isInterface(a.V.Typ) {
